@@ -6,7 +6,7 @@
 (M->C) every program TLC writes (the directive at every position, labels before/after/in other files, intermediate symbols,
        shifts, division of differences) is assembled by the real code: predicted base + image + symbol values, or rejection.
 """
-from ..asmcore import explore, replay_all, kinds_of
+from ..asmcore import explore, explore_replay, replay_all, kinds_of
 
 
 def nontrivial(rec):
@@ -23,8 +23,9 @@ def main(run):
     recs, inc = explore(run, "LinkAlphabet", "LayoutIncFiles", 3, 1, [512], harness_link=False, label="AsmCore link, 1 file x 3 stmts (exhaustive)")
     tasks = replay_all(run, recs, inc, {"harness_link": False}, nontrivial)
     if thorough:
-        recs1, inc1 = explore(run, "LinkAlphabet", "LayoutIncFiles", 4, 1, [512], harness_link=False, label="AsmCore link, 1 file x 4 stmts (exhaustive)", timeout=3000)
-        tasks += replay_all(run, recs1, inc1, {"harness_link": False}, nontrivial)
+        t1, _ = explore_replay(run, "LinkAlphabet", "LayoutIncFiles", 4, 1, [512], {"harness_link": False}, nontrivial, keep=100000,
+                               label="AsmCore link, 1 file x 4 stmts (exhaustive)", timeout=6000)
+        tasks += t1
     recs2, inc2 = explore(run, "LinkAlphabet", "LayoutIncFiles", 5, 2, [512], harness_link=False, simulate=(15000 if thorough else 2000),
                           depth=12, seed=run.seed + 5, label="AsmCore link simulation (<= 5 stmts x 2 files)")
     tasks += replay_all(run, recs2, inc2, {"harness_link": False}, nontrivial)
